@@ -34,12 +34,15 @@ const (
 	KRead
 	KClose
 	KClean
+	KCompactRange // compaction of an arbitrary contiguous range (through the export shim)
 )
 
-var kindNames = []string{"Open", "Add", "AddMulti", "Abandon", "CompactAll", "Expire", "AutoCompact", "Read", "Close", "Clean"}
+var kindNames = []string{"Open", "Add", "AddMulti", "Abandon", "CompactAll", "Expire", "AutoCompact", "Read", "Close", "Clean", "CompactRange"}
 
 type POp struct {
 	Kind int           `json:"k"`
+	A    int           `json:"a,omitempty"`   // KCompactRange: first = A mod n
+	B    int           `json:"b,omitempty"`   // KCompactRange: last = B mod n
 	Bad  int           `json:"bad,omitempty"` // KAdd only: 1 = also writes an invalid ref name, 2 = limits start at 1 (too low)
 	Txs  []HTx         `json:"txs,omitempty"`
 	Exp  *model.Expiry `json:"exp,omitempty"`
@@ -204,6 +207,10 @@ func specToModel(f *specdec.File) *model.Table {
 // table decodes a table file (cached: tables are immutable once in place).
 func (e *engine) table(name string) (*model.Table, string) {
 	if t, ok := e.tabCache[name]; ok {
+		// decoded before (tables are immutable), but it must still be there
+		if _, err := os.Lstat(filepath.Join(e.dir, name)); err != nil {
+			return nil, "missing: " + err.Error()
+		}
 		return t, ""
 	}
 	data, err := os.ReadFile(filepath.Join(e.dir, name))
@@ -353,7 +360,7 @@ func (e *engine) onEvent(ev verifvfs.Event) {
 }
 
 func isCommitting(k int) bool {
-	return k == KAdd || k == KAddMulti || k == KCompactAll || k == KExpire || k == KAutoCompact
+	return k == KAdd || k == KAddMulti || k == KCompactAll || k == KExpire || k == KAutoCompact || k == KCompactRange
 }
 
 func containsStr(ss []string, s string) bool {
@@ -494,7 +501,7 @@ func (e *engine) onOpEnd(ev verifvfs.Event, op *opRecord) {
 			if op.err != nil {
 				e.fail(annotate(Failf("C04/open-failed", "%s failed: %v", what, op.err), e.tail(16)))
 			}
-		case KCompactAll, KExpire, KAutoCompact, KClean, KAbandon:
+		case KCompactAll, KExpire, KAutoCompact, KClean, KAbandon, KCompactRange:
 			if op.err != nil && !lockFailure(op.err) {
 				e.fail(annotate(Failf("C04/unexpected-error", "%s failed with %q: without I/O faults only ErrLockFailure is allowed", what, op.err), e.tail(16)))
 			}
@@ -694,6 +701,16 @@ func (e *engine) runOp(p int, stp **reftable.Stack, prog Prog, rec *opRecord) {
 		rec.err = st.CompactAll(&reftable.LogExpirationConfig{Time: x.Time, MaxUpdateIndex: x.Max, MinUpdateIndex: x.Min})
 	case KAutoCompact:
 		rec.err = st.AutoCompact()
+	case KCompactRange:
+		n := len(st.VerifTableNames())
+		if n == 0 || !reftable.VerifExportAvailable {
+			return
+		}
+		first, last := rec.op.A%n, rec.op.B%n
+		if first > last {
+			first, last = last, first
+		}
+		_, rec.err = st.VerifCompactRange(first, last, nil)
 	case KRead:
 		// the read itself happens after every operation (see body)
 	case KClose:
